@@ -42,7 +42,7 @@ NWORKERS = max(2, min(16, svlib.NCPU))
 # the documented options
 # ------------------------------------------------------------------------------------------------
 
-NUMS = [1, 2, 3, 4, 8, 40, 80, 120, 1000]
+NUMS = [0, 1, 2, 3, 4, 8, 40, 80, 120, 1000]
 USIZE_MAX = 18446744073709551615
 
 ENUMS = {
